@@ -215,7 +215,7 @@ def main():
             definition = g.machine()
             if not ec.has_fanout(definition):
                 continue
-            wk = cp.Worker(rng.randrange(10 ** 6), failures=0.3)
+            wk = cp.Worker(rng.randrange(10 ** 6), failures=0.3, stable=True)
             data = json.loads(json.dumps(cp.INPUT))
             sseed = rng.randrange(10 ** 9)
         info = eg.convert(eg.run_many(definition, [data], wk, tmpd, chooser=eg.random_chooser(random.Random(sseed))))
